@@ -17,7 +17,7 @@ THEOREMS = [
     # over the tables regenerated from the source (Gen/NumDispatch.lean)
     "Gozod.C16D.toNum_table", "Gozod.C16D.toNum_types_known", "Gozod.C16D.compareNumeric_table", "Gozod.C16D.cmpIntFloat_table",
     "Gozod.C16D.cmpOps_table", "Gozod.C16D.c16_cmp_table", "Gozod.C16D.sign_ops", "Gozod.C16D.check_ctors",
-    "Gozod.C16D.cmpFloats_arms", "Gozod.C16D.cmpInts_arms", "Gozod.C16D.multipleOfInts_arms", "Gozod.C16D.multipleOf_consts",
+    "Gozod.C16D.multipleOf_consts",
     "Gozod.C16D.frames", "Gozod.C16D.methods_table",
     # the float branch of MultipleOf (documented epsilon rule, Model/NumFloat.lean)
     "Gozod.C16F.c16_float_multiple_complete", "Gozod.C16F.c16_float_multiple_zero", "Gozod.C16F.c16_float_multiple_nan",
